@@ -1,6 +1,7 @@
 import Nstd.Common.Basic
 import Nstd.Path.Model
 import Nstd.Path.FsLib
+import Nstd.Path.FsSpec
 /-
   Line protocol of the Path area (property C19).  Path ops are stateless:
      dir <hex> | base <hex> <hexext> | stem <hex> <hexext> | ext <hex> | simp <hex> |
@@ -199,7 +200,9 @@ def stepLine (st : St) (ws : List String) : St × String :=
     | some out => (st, out)
     | none =>
       match fsOp st.fs ws with
-      | some (fs', out) => ({ fs := fs' }, out ++ " | " ++ snapshot fs')
+      | some (fs', out) =>
+        -- the theorems about Directory::unlink assume a well-formed world: every state the run reaches is checked
+        ({ fs := fs' }, out ++ (if decide (WF fs') then "" else " !not-wellformed") ++ " | " ++ snapshot fs')
       | none => (st, "bad-op")
 
 end Nstd.Path
